@@ -10,7 +10,8 @@ RULE = ("windows: all 1- and 2-byte windows; 3-/4-byte windows = all 256 lead by
         "boundary set (quick) or all 2^24 three-byte windows + viable-prefix four-byte windows (thorough); every "
         "window also truncated to each shorter length and extended by one byte; composed strings: seeded random "
         "concatenations of valid sequences with single-byte mutations; a case is non-trivial if it is a distinct "
-        "window/string (all are distinct by construction; counted after de-duplication)")
+        "window/string (all are distinct by construction; counted after de-duplication); the real iterator at the front of texts of "
+        "2^31..3*2^32+5 bytes (sparse mapping), judged through the theorem decode_window; thorough: IsUTF8 over 2^32+k bytes")
 ASSUMPTIONS = ["model transcribes util/utf8.hh by hand (tied by this differential run)",
                "bin/remove_invalid_utf8 reads lines through the C02 reader (CR before LF stripped)"]
 
@@ -169,6 +170,42 @@ def run(ctx):
     ctx.cov["isutf8_true"] = sum(1 for x in a2 if x == "true")
     ctx.cov["isutf8_false"] = sum(1 for x in a2 if x == "false")
     judge(ctx, "utf8.isutf8", bad2)
+    # 2b. the real iterator at the front of texts of 2^32 bytes and more (sizes whose low 32 bits are 0..5, and just below 2^32):
+    #     the given bytes followed by NULs in a lazily committed mapping.  By PV.Props.C12.decode_window the answer is the one for
+    #     the first four bytes, which is what the model/spec side computes.
+    fronts = [b"A", b"\xc3\xa9", b"\xe2\x82\xac", b"\xf0\x9f\x98\x80", b"\xef\xbf\xbd", b"\xf4\x8f\xbf\xbf", b"\xdf\xbf", b"\xe0\xa0\x80",
+              b"\xc3", b"\xe2\x82", b"\xf0\x9f\x98", b"\xc0\xaf", b"\xed\xa0\x80", b"\xf4\x90\x80\x80", b"\x80", b"\xff", b"\xe2\x82\xacxyz", b"\xc3\xa9\xc3"]
+    sizes = [(1 << 32) * m + k for m in (1, 2, 3) for k in range(0, 6)] + [(1 << 32) - k for k in range(1, 5)] + [(1 << 31) + k for k in range(0, 4)]
+    ops3 = [f"utf8.iterhuge {n} {hx(f)}" for n in sizes for f in fronts]
+    bad3, a3, b3 = pvlib.diff_streams(ctx, "utf8.iterhuge", ops3)
+    ctx.cov["iterhuge_skipped"] = sum(1 for x in a3 if x.startswith("skipped"))
+    bad3 = [t for t in bad3 if not t[2].startswith("skipped")]
+    if bad3:
+        spec3 = pvlib.run_lines(pvlib.PVDRIVER, [t[1].replace("utf8.iterhuge", "utf8.spec.iterhuge") for t in bad3])
+        viol = [(t, s_) for t, s_ in zip(bad3, spec3) if t[2] != s_]
+        if viol:
+            (i, op, impl, model), s_ = viol[0]
+            n_ = int(op.split()[1])
+            pvlib.report_violation(ctx, "utf8-huge:" + op, {"ops": [op], "impl": impl, "model": model, "spec": s_, "more": [v[0][1] for v in viol[1:20]],
+                                   "text": f"{n_} bytes = 2^32*{n_ >> 32} + {n_ & 0xffffffff}: the bytes {op.split()[2]} followed by NULs"},
+                                   summary=f"DecodeUTF8Iterator at the front of a {n_}-byte text (2^32*{n_ >> 32} + {n_ & 0xffffffff}) that begins {op.split()[2]}: "
+                                           f"implementation {impl}, specification {s_}")
+        else:
+            (i, op, impl, model) = bad3[0]
+            pvlib.report_violation(ctx, "corr:utf8.iterhuge", {"ops": [b_[1] for b_ in bad3[:20]], "impl": impl, "model": model,
+                                   "correspondence": "PV.Utf8.decode on the first four bytes vs DecodeUTF8Iterator on a huge text"}, no_input=True,
+                                   summary=f"model/impl correspondence broken at {op}: impl {impl} model {model}")
+    if ctx.tier != "quick":
+        # the whole-text verdict on 2^32+k bytes (a full scan of 2^32 NULs: thorough tier only); a well-formed front followed by NULs is
+        # well-formed (decodeAll_iff), an ill-formed front is not
+        for n, f, want in (((1 << 32) + 2, b"\xe2\x82\xac", "ok 8364 3 true"), ((1 << 32) + 1, b"\xc3\xa9", "ok 233 2 true"), ((1 << 32) + 3, b"\xc0\xaf", "ERR:notutf8 false")):
+            op = f"utf8.iterhuge {n} {hx(f)} scan"
+            got = pvlib.run_lines(ctx.impl(), [op], env=pvlib.san_env(), timeout=1200, stall=1200)[0]
+            ctx.count("utf8.iterhuge.scan", 1, [op])
+            if got != want and not got.startswith("skipped"):
+                pvlib.report_violation(ctx, "utf8-huge-scan:" + op, {"ops": [op], "impl": got, "spec": want},
+                                       summary=f"IsUTF8 on a {n}-byte text that begins {hx(f)} and continues with NULs: {got}, specification {want}")
+                break
     # 3. the tool: remove_invalid_utf8 keeps exactly the well-formed lines, unchanged
     lines = [s for s in strs if b"\n" not in s and not s.endswith(b"\r")][:5000]
     # single stray bytes in ASCII lines at every offset of the reader's buffer modulo 8 (padding lines shift the offset)
